@@ -174,4 +174,19 @@ CHECKS["C06"] = dict(
              "accumulation over all real inputs is outside an enumerable space and is only sampled by the alphabet.",
 )
 
+CHECKS["C01"] = dict(
+        src="checks/c01.cpp", cfg="rel", link="static", engine="A-case-explorer",
+        category="exploration", design_ref="DESIGN.md section 4, C01",
+        technique="bounded-exhaustive enumeration of N x path x cfg x shapes x adversarial operand-pattern pairs (and complete small scopes) on the real code against the exact __int128 negacyclic product",
+        text="For every N = 2..4096 (65536 thorough), both dispatch configurations and the three FFT64 product paths (small single product; "
+             "svp prepare + apply + idft; same with idft_tmp_a, over all (res_size,a_size) in {0..3}^2 and two strides for N <= 64) the 144 pairs of "
+             "adversarial operand patterns (all-max, alternating, sign patterns resonant with a root of unity, monomials, mixed magnitudes, seeded) "
+             "in three magnitude regimes - at the 2^50-1 coefficient limit with the largest admissible partner, both near 2^26/sqrt(N), and E just "
+             "below 1/2 where exact equality is demanded - are multiplied by the real code and compared with the exact product: |res - exact| <= "
+             "E + 1/2 with E evaluated in binary128 from the exact norms; rows beyond the input size must be exactly zero. Complete scopes: all "
+             "coefficient vectors in [-3,3] for N=2 and [-2,2] for N=4.",
+        note="Only in-domain pairs are generated. The worst case of the floating-point FFT over ALL real vectors of the budget is not "
+             "enumerable: the claim is for the pattern alphabet and the complete small scopes, for every N and configuration.",
+)
+
 NOT_YET = {}
